@@ -1,7 +1,87 @@
 package main
 
-// runBounded runs the bounded stand-ins of the property (exhaustive small-scope harnesses against the
-// real code). They are labelled bounded in the evidence and never counted as proved.
+import (
+	"encoding/json"
+	"fmt"
+	"os"
+	"os/exec"
+	"path/filepath"
+	"strings"
+	"time"
+)
+
+// runBounded runs the bounded stand-ins of the property: exhaustive small-scope harnesses executed
+// against the real code (in-package tests injected with go test -overlay, nothing written to the
+// repository). They are labelled bounded in the evidence and never counted as proved.
 func (r *checkRun) runBounded() int {
-	return 0
+	exit := 0
+	for _, b := range r.cfg.Bounded {
+		bound := b.Quick
+		if r.tier == "thorough" && b.Thorough != "" {
+			bound = b.Thorough
+		}
+		start := time.Now()
+		cmd := exec.Command(filepath.Join(verifDir, "tools", "overlay_test.sh"), r.repo, b.Package, filepath.Join(verifDir, "bounded", b.File), b.Test)
+		cmd.Env = append(os.Environ(), "VERIF_BOUND="+bound, fmt.Sprintf("VERIF_SEED=%d", r.seed))
+		out, err := cmd.CombinedOutput()
+		rec := map[string]any{"name": b.Name, "function": b.Test, "label": "bounded (exhaustive up to the stated bound; not a proof)", "bound_param": bound, "wall_s": round3(time.Since(start).Seconds())}
+		var failures []string
+		found := false
+		for _, line := range strings.Split(string(out), "\n") {
+			if i := strings.Index(line, "BOUNDED-RESULT "); i >= 0 {
+				var res map[string]any
+				if json.Unmarshal([]byte(line[i+len("BOUNDED-RESULT "):]), &res) == nil {
+					found = true
+					for k, v := range res {
+						if k == "failures" {
+							if fs, ok := v.([]any); ok {
+								for _, f := range fs {
+									failures = append(failures, fmt.Sprint(f))
+								}
+							}
+							continue
+						}
+						rec[k] = v
+					}
+				}
+			}
+		}
+		if !found {
+			tail := string(out)
+			if len(tail) > 1500 {
+				tail = tail[len(tail)-1500:]
+			}
+			failures = append(failures, "harness produced no result: "+tail)
+		} else if err != nil && len(failures) == 0 {
+			failures = append(failures, "harness failed: "+err.Error())
+		}
+		rec["failures"] = len(failures)
+		r.bounded = append(r.bounded, rec)
+		if len(failures) == 0 {
+			fmt.Printf("bounded %s: %v cases, bound %v, ok\n", b.Name, rec["cases"], rec["bound"])
+			continue
+		}
+		name := "bounded:" + b.Name
+		known := false
+		for _, k := range loadKnown() {
+			if k.Property == r.cfg.Property && k.Status == "known" && k.Obligation == name {
+				known = true
+				fmt.Printf("KNOWN-FINDING: property=%s %s: %s\n", r.cfg.Property, name, k.What)
+				r.knownHits = append(r.knownHits, name)
+			}
+		}
+		if known {
+			continue
+		}
+		path := filepath.Join(verifDir, "replays", r.cfg.Property, "bounded_"+b.Name+".json")
+		os.MkdirAll(filepath.Dir(path), 0o755)
+		data, _ := json.MarshalIndent(map[string]any{"property": r.cfg.Property, "obligation": name, "kind": "bounded", "verdict": "confirmed",
+			"failing_inputs": failures, "replay": fmt.Sprintf("tools/overlay_test.sh %s %s bounded/%s %s", r.repo, b.Package, b.File, b.Test)}, "", " ")
+		os.WriteFile(path, data, 0o644)
+		fmt.Printf("FAILED %s [bounded] %s\n", name, failures[0])
+		fmt.Printf("VIOLATION property=%s replay=%s\n", r.cfg.Property, path)
+		r.violations = append(r.violations, violation{obligation: name, status: "bounded-failure", replay: path, hasInput: true})
+		exit = 1
+	}
+	return exit
 }
